@@ -85,6 +85,16 @@ def witnesses():
                       ("if", [(atom("c", "==", 1), [("simult", [("f", P.det(c(1))), ("x", P.det(add(v("x"), c(1))))])])], None),
                       ("if", [(atom("f", "==", 1), [assign("x", add(v("x"), c(2)))])], None)]),
                 {}, "simult-in-branch"))
+    # 21: a finite variable assigned twice per iteration, the second time from itself (no guard, no branch)
+    out.append((prog([assign("f", c(0)), assign("y", c(0))],
+                     [("assign", "f", choice2(F(1, 2), c(0), c(1))), assign("f", add(v("f"), c(1))),
+                      ("if", [(atom("f", ">=", 2), [assign("y", add(v("y"), c(1)))])], None)]),
+                {}, "multi-assign-finite"))
+    # 22: the same under a loop guard
+    out.append((prog([assign("f", c(0)), assign("y", c(0)), assign("c", c(0))],
+                     [assign("c", bern(F(1, 2))), ("assign", "f", choice2(F(1, 2), c(0), c(1))), assign("f", add(v("f"), c(1))),
+                      ("if", [(atom("f", ">=", 2), [assign("y", add(v("y"), c(1)))])], None)], atom("c", "==", 0)),
+                {}, "multi-assign-finite"))
     return out
 
 
@@ -400,6 +410,46 @@ def simult_in_branch_assigns_condition_variable(p):
                     return True
         return False
     return rec(p["body"], 0)
+
+
+def self_updating_reassignment(p):
+    """(found, unconditional): a variable of some condition with >= 2 assignments in the loop body one of
+    which reads the variable itself; unconditional = loop guard true and all its assignments at top level"""
+    cvars = set(gen.cond_vars(p["guard"]))
+    for s, _ in walk_ifs(p["body"]):
+        for cnd, _ in s[1]:
+            cvars |= gen.cond_vars(cnd)
+    info = {}
+
+    def rhs_reads(r, z):
+        if r[0] == "choice":
+            return any(z in gen.expr_vars(e) for _, e in r[1])
+        return False
+
+    def rec(block, depth):
+        for s in block:
+            if s[0] == "assign":
+                d = info.setdefault(s[1], {"n": 0, "self": False, "deep": False})
+                d["n"] += 1
+                d["self"] |= rhs_reads(s[2], s[1])
+                d["deep"] |= depth > 0
+            elif s[0] == "simult":
+                for x, r in s[1]:
+                    d = info.setdefault(x, {"n": 0, "self": False, "deep": False})
+                    d["n"] += 1
+                    d["self"] |= rhs_reads(r, x)
+                    d["deep"] |= depth > 0
+            else:
+                for _, b in s[1]:
+                    rec(b, depth + 1)
+                if s[2]:
+                    rec(s[2], depth + 1)
+    rec(p["body"], 0)
+    hits = [(z, d) for z, d in info.items() if z in cvars and d["n"] >= 2 and d["self"]]
+    if not hits:
+        return False, False
+    uncond = p["guard"] == ("true",) and all(not d["deep"] for _, d in hits)
+    return True, uncond
 
 
 def fixed_constants(p):
